@@ -564,6 +564,8 @@ def _case_C09(rnd, case, dbg):
         if len(done) >= 2:
             nt = True
         if bad:
+            # the clause with recorded findings (F11/F11b) last: it must not mask another failed clause of the same lattice
+            bad.sort(key=lambda b: b[0] == 'live-only-if-predecessor-live')
             cl = bad[0][0]
             key = f"C09:{cl}"
             if cl == 'live-only-if-predecessor-live' and 'widen' in [o[0] for o in done]:
